@@ -680,6 +680,13 @@ impl<Store: StorageData> DbImpl<Store> {
     }
 
     pub(crate) fn insert_new_alias(&mut self, db_id: DbId, alias: &String) -> Result<(), DbError> {
+        if alias.is_empty() {
+            return Err(DbError::query(
+                DbErrorType::NotAllowed,
+                "Empty alias is not allowed",
+            ));
+        }
+
         if let Some(old_alias) = self.aliases.key(&self.storage, &db_id)?
             && old_alias != *alias
         {
